@@ -175,7 +175,7 @@ class Main(Suite):
     go_cmd = "c03"
     coq_imports = "From GoGit Require Import Model.ObjLines Model.Ident Model.Commit Model.Tag Model.SigPayload Spec.GitSig Spec.SigGuards."
     quick_n = 500
-    thorough_n = 8000
+    thorough_n = 3000
 
     def gen(self, rng, n, tier):
         cases = []
